@@ -244,6 +244,7 @@ func cmdCheck(args []string) {
 	nObl, nDis := 0, 0
 	covers, canaries := 0, 0
 	deadSites := 0
+	inconclusiveCovers := 0
 	byBackend := map[string]int{}
 	var solverTotal, solverMax float64
 	var records []oblRecord
@@ -289,6 +290,8 @@ func cmdCheck(args []string) {
 			}
 			if o.Result == "unsat" {
 				report(o, "vacuity: "+o.Kind+" query is unsatisfiable (contradictory assumptions or unreachable exits)", false)
+			} else if o.Result != "sat" {
+				inconclusiveCovers++
 			}
 			continue
 		}
@@ -399,6 +402,7 @@ func cmdCheck(args []string) {
 				"solver_time_s":             map[string]float64{"total": round2(solverTotal), "max": round2(solverMax)},
 				"cover_queries":             covers,
 				"call_sites_unreachable_under_preconditions": deadSites,
+				"cover_queries_inconclusive": inconclusiveCovers,
 				"canaries":                  canaries,
 				"known_findings":            knownHit,
 				"unannotated_loops_havocked": unannotatedLoops,
